@@ -25,6 +25,7 @@ type genState struct {
 	reliab   map[string]float64
 	maxBlocks int
 	past     []string // earlier transactions (text after the mode), for replays
+	afterParamChange bool // the last operation was a delivered change-param transaction
 	unjailNow int     // key index of a jailed validator whose jail term ends within a nanosecond of this block's time (-1: none)
 }
 
